@@ -182,6 +182,7 @@ def step (s : St) (line : String) : St × String :=
   | "cmd.restore" :: ix :: args :: [] =>
     let w : Cmds.WS := ⟨entriesIn ix, [], [], none, [], false⟩
     (s, resOut (fun r => entriesOut ((r.mergeSort (fun a b => decide (a.path ≤ b.path))).eraseDups)) (Cmds.restoreWork w ((splitList args).map unhex)))
+  | ["idx.reset", c] => (s, resOut entriesOut (Cmds.resetEntries H s.fn depth (unhex c)))
   | "eff.shape" :: cmd :: rest =>
     let n (i : Nat) : Nat := natOf (rest.getD i "0")
     let objs (k : Nat) : List (Bytes × Bytes) := (List.range k).map fun i => ([UInt8.ofNat i], [])
